@@ -37,6 +37,10 @@ func runStatic(prog *Prog, sc StaticCheck) *StaticResult {
 		return runSpawn(prog, sc)
 	case "once-init":
 		return runOnceInit(prog, sc)
+	case "import-check":
+		return runImportCheck(prog, sc)
+	case "escaped-format":
+		return runEscapedFormat(prog, sc)
 	case "no-reach":
 		return runNoReach(prog, sc)
 	case "arg-origin":
@@ -615,5 +619,44 @@ func runNoReach(prog *Prog, sc StaticCheck) *StaticResult {
 		res.Trusted = append(res.Trusted, fmt.Sprintf("no-reach %s: %d calls through function values of unknown origin (parameters, struct fields) are assumed not to reach the targets", sc.Args["func"], unknown))
 	}
 	res.Detail = map[string]interface{}{"visited": len(seen), "unknown_calls": unknown}
+	return res
+}
+
+// runImportCheck: the package imports <require> and none of <forbid> (e.g. html/template, not text/template,
+// for pages that interpolate profile-derived text).
+func runImportCheck(prog *Prog, sc StaticCheck) *StaticResult {
+	res := &StaticResult{Name: sc.Name, Kind: sc.Kind}
+	sp := prog.SSAPkgs[modPath+"/"+sc.Pkg]
+	if sp == nil {
+		res.Obligations = 1
+		res.Failures = append(res.Failures, "binding: package "+sc.Pkg+" not loaded")
+		return res
+	}
+	imps := map[string]bool{}
+	for _, ip := range sp.Pkg.Imports() {
+		imps[ip.Path()] = true
+	}
+	for _, r := range strings.Split(sc.Args["require"], ",") {
+		if r = strings.TrimSpace(r); r != "" {
+			res.Obligations++
+			if imps[r] {
+				res.Discharged++
+			} else {
+				res.Failures = append(res.Failures, fmt.Sprintf("package %s does not import %s", sc.Pkg, r))
+			}
+		}
+	}
+	for _, f := range strings.Split(sc.Args["forbid"], ",") {
+		if f = strings.TrimSpace(f); f != "" {
+			res.Obligations++
+			if imps[f] {
+				res.Failures = append(res.Failures, fmt.Sprintf("package %s imports %s", sc.Pkg, f))
+			} else {
+				res.Discharged++
+			}
+		}
+	}
+	res.Samples = append(res.Samples, map[string]interface{}{"obligation": fmt.Sprintf("%s#imports(require %s; forbid %s)", sc.Pkg, sc.Args["require"], sc.Args["forbid"]), "backend": "go/types"})
+	res.Trusted = append(res.Trusted, "html/template escapes interpolated values according to their HTML/JS/URL context")
 	return res
 }
